@@ -7,7 +7,7 @@ From Coq Require Import String.
 From Boltons Require Import Lib.Prelude Lib.C06_Text Spec.C06_Spec Model.C06_Model Gen.C06_Gen Gen.C06_Src
   Proofs.C06_SrcEq
   Proofs.C06_Codec Proofs.C06_Utf8 Proofs.C06_Quote Proofs.C06_Lists Proofs.C06_Round Proofs.C06_Legal
-  Proofs.C06_Guard Proofs.C06_Refine Proofs.C06_Ports Proofs.C06_NoAuth Proofs.C06_NoAuthMin Proofs.C06_Shape Proofs.C06_Parsed Proofs.C06_QuoteMin Proofs.C06_Parts Proofs.C06_RoundMin Proofs.C06_Total
+  Proofs.C06_Guard Proofs.C06_Refine Proofs.C06_Ports Proofs.C06_NoAuth Proofs.C06_NoAuthMin Proofs.C06_Shape Proofs.C06_Parsed Proofs.C06_QuoteMin Proofs.C06_Parts Proofs.C06_RoundMin Proofs.C06_Total Proofs.C06_Reads
   Proofs.C06_GenOk.
 Open Scope N_scope.
 
@@ -451,6 +451,20 @@ Theorem C06_fixpoint_full_v6_partial : forall T O, tables_ok T = true ->
   to_text T O true u' = MOk full.
 Proof. exact fixpoint_full_v6. Qed.
 Print Assumptions C06_fixpoint_full_v6_partial.
+
+(* READING (model): for every well-formed URI/IRI or relative reference t (Spec.wf_ref), whenever URL(t)
+   returns, its scheme, username, password, path segments, query pairs and fragment are exactly what the
+   Spec reads out of t (Spec.reads_ok: RFC 3986 Appendix B split, reference percent-decoding, the query as a
+   form with '&' / ';' separators, first '=' and '+' as space) - the clause parse_ok evaluates on the
+   implementation's observation of every parse case.  _URL_RE = the Appendix B split (url_re_rfc), parse_qsl =
+   the form reading (parse_qsl_form), both for all texts. *)
+Theorem C06_parse_reads : forall T O, tables_ok T = true -> forall t u,
+  wf_ref true t = true -> url_init T O t = MOk u -> reads_ok t (observe_url T u) = true.
+Proof. exact parse_reads. Qed.
+Print Assumptions C06_parse_reads.
+Theorem C06_parse_qsl_form : forall T, tables_ok T = true -> forall qs, parse_qsl T qs = form_pairs qs.
+Proof. exact parse_qsl_form. Qed.
+Print Assumptions C06_parse_qsl_form.
 
 (* TOTALITY (model): URL(text) returns a URL or raises URLParseError, for every text, all tables
    and all codec answers (inet_pton's failures are caught in parse_host, so that oracle answers
